@@ -99,6 +99,8 @@ ENUMERATORS = ['dfa_algorithms.dfa_words_up_to_n', 'nfa_algorithms.nfa_words_up_
 
 
 def check_C02(ctx, rep):
+    small_models2.check_chomsky_phases(ctx, rep, [ctx.prog.func('cfg_algorithms.' + n0) for n0 in small_models2._PHASES])
+    rep.clauses_decided.append('the conversion through which the enumerator of a general grammar goes keeps the words up to length 3 and the declared variables on twelve model grammars, one of them with 26 variables (M28, finite model)')
     small_models2.check_enumerators(ctx, rep, ctx.prog.func('dfa_algorithms.dfa_words_up_to_n'), ctx.prog.func('nfa_algorithms.nfa_words_up_to_n'), ctx.prog.func('regexp_algorithms.regexp_words_up_to_n'))
     rep.clauses_decided.append('dfa_words_up_to_n, nfa_words_up_to_n and regexp_words_up_to_n return exactly the accepted / denoted words of length at most n on the model DFAs, NFAs and expressions for n = 0..4 (0..3), n running through 0 and the length of the shortest accepted word (M24, finite model)')
     small_models2.check_cfg_words(ctx, rep, ctx.prog.func('cfg_algorithms.cfg_words_up_to_n'))
@@ -300,7 +302,7 @@ def check_C07(ctx, rep):
     small_models2.check_cfg_membership(ctx, rep, ctx.prog.func('cfg_algorithms.cfg_accepts_word'))
     rep.clauses_decided.append('cfg_accepts_word answers True exactly when the start variable derives the word on eleven general model grammars (epsilon rules, nullable chains, unit cycles, long right-hand sides) and all words up to length 3, the on-the-fly conversion included; the grammar handed in is untouched (M32, finite model)')
     small_models2.check_chomsky_phases(ctx, rep, [ctx.prog.func('cfg_algorithms.' + n0) for n0 in small_models2._PHASES])
-    rep.clauses_decided.append('the five phases of the Chomsky conversion, applied in order to eleven model grammars (epsilon rules, nullable chains, unit cycles, long right-hand sides, terminals inside them) under two iteration orders of sets, each keep the words up to length 3 and the declared variables, and the final grammar is in Chomsky normal form (M28, finite model)')
+    rep.clauses_decided.append('the five phases of the Chomsky conversion, applied in order to twelve model grammars (epsilon rules, nullable chains, unit cycles, long right-hand sides, terminals inside them) under two iteration orders of sets, each keep the words up to length 3 and the declared variables, and the final grammar is in Chomsky normal form (M28, finite model)')
     small_models2.check_cyk(ctx, rep, ctx.prog.func('cfg_algorithms.cfg_cyk_matrix'), ctx.prog.func('cfg_algorithms.cfg_accepts_word'))
     rep.clauses_decided.append('on five model grammars in Chomsky normal form and all words up to length 4 (3) every CYK cell holds exactly the variables that derive the subword and the membership test agrees with derivability (M23, finite model)')
     small_models2.check_unit_elimination(ctx, rep, ctx.prog.func('cfg_algorithms.cfg_eliminate_unit_rules_in_place'))
@@ -366,7 +368,7 @@ def check_C08(ctx, rep):
     small_models3.check_is_chomsky(ctx, rep)
     rep.clauses_decided.append('CFG.is_chomsky answers True exactly for the grammars in Chomsky normal form on 18 model grammars: right-hand sides of every shape up to length four, the offending rule first / in the middle / last, epsilon rules of other variables before and after the one of the start variable, the start variable on a right-hand side (M37, finite model)')
     small_models2.check_chomsky_phases(ctx, rep, [ctx.prog.func('cfg_algorithms.' + n0) for n0 in small_models2._PHASES])
-    rep.clauses_decided.append('the five phases of the Chomsky conversion, applied in order to eleven model grammars (epsilon rules, nullable chains, unit cycles, long right-hand sides, terminals inside them) under two iteration orders of sets, each keep the words up to length 3 and the declared variables, and the final grammar is in Chomsky normal form (M28, finite model)')
+    rep.clauses_decided.append('the five phases of the Chomsky conversion, applied in order to twelve model grammars (epsilon rules, nullable chains, unit cycles, long right-hand sides, terminals inside them) under two iteration orders of sets, each keep the words up to length 3 and the declared variables, and the final grammar is in Chomsky normal form (M28, finite model)')
     small_models2.check_unit_elimination(ctx, rep, ctx.prog.func('cfg_algorithms.cfg_eliminate_unit_rules_in_place'))
     rep.clauses_decided.append('cfg_eliminate_unit_rules_in_place, on six model grammars (unit cycles with an exit, a start variable that only reaches unit rules, a self-loop) under two iteration orders of the variable set, leaves no unit rule and keeps the words up to length 3 (M16, finite model)')
     small_models2.check_nullable(ctx, rep, ctx.prog.func('cfg_algorithms.cfg_nullable_variables'))
@@ -530,7 +532,7 @@ def check_C13(ctx, rep):
     small_models3.check_simple_cfg_roundtrip(ctx, rep)
     rep.clauses_decided.append('parse_simple_cfg(cfg_print_simple(G)) has the rules of G in order, its variables, terminals and start variable on seven model grammars in the simple format: the empty alternative on the first line, on a later line only, in the middle of a line, nowhere (M39, finite model)')
     small_models2.check_chomsky_phases(ctx, rep, [ctx.prog.func('cfg_algorithms.' + n0) for n0 in small_models2._PHASES], first_rule=True)
-    rep.clauses_decided.append('after every phase of the Chomsky conversion the first rule belongs to the start variable on eleven model grammars under two iteration orders of sets -- the simple text format, in which the answer of each phase is printed, has no start declaration and its reader takes the variable of the first rule (M28 with the first-rule clause, finite model)')
+    rep.clauses_decided.append('after every phase of the Chomsky conversion the first rule belongs to the start variable on twelve model grammars under two iteration orders of sets -- the simple text format, in which the answer of each phase is printed, has no start declaration and its reader takes the variable of the first rule (M28 with the first-rule clause, finite model)')
     small_models3.check_text_roundtrip(ctx, rep)
     rep.clauses_decided.append('the text printed for a model reference automaton is read back as that automaton by the parser the checkers use (M35, finite model)')
     small_models2.check_subset_name_readers(ctx, rep, ctx.prog.func('notebook_nfa2dfa.check_nfa_to_dfa_answer'), ctx.prog.func('dfa.print_state_set'))
